@@ -556,6 +556,10 @@ func GenOp(r *rand.Rand, p *Profile, nAcct int) Op {
 		if r.Intn(10) == 0 {
 			op.X[1] = -int64(r.Intn(3))
 		}
+		if op.K == "lock" && r.Intn(5) == 0 {
+			// a long-dated lock: due far beyond the unbond period of either chain id
+			op.X[1] = int64(520000 + r.Intn(3000000))
+		}
 	case "redeem":
 		if r.Intn(3) == 0 {
 			op.X[0] = -1
